@@ -9,7 +9,7 @@
 // every case of the tag-less switch, in source order, the disjunction of atoms of its condition
 //
 //	PNil                     err == nil
-//	PHelper "os.IsXxx"       os.IsXxx(err)
+//	PHelper "os.IsXxx"       os.IsXxx(err), or a predicate isXxx(err) of the package itself ("filesystem.isTimeoutError")
 //	PIs [targets]            commonerrors.Any(err, targets...)            (targets by their Go name)
 //	PText [strings]          commonerrors.CorrespondTo(err, strings...)   (string constants resolved)
 //	PFalse                   commonerrors.Any(x) with no candidate (always false), or IsWindows() && ... (linux model)
@@ -163,6 +163,12 @@ func (c *ctx) atoms(e ast.Expr) []atom {
 				die(x.Pos(), "%s(%s) expected", n, c.v)
 			}
 			return []atom{{kind: "helper", name: n}}
+		case !strings.Contains(n, ".") && strings.HasPrefix(n, "is") && c.pkg != "":
+			// a predicate of the package itself, e.g. isTimeoutError(err): interpreted (by name) in coq/C11/Conv.v
+			if len(call.Args) != 1 || !isIdent(call.Args[0], c.v) {
+				die(x.Pos(), "%s(%s) expected", n, c.v)
+			}
+			return []atom{{kind: "helper", name: c.pkg + "." + n}}
 		case n == "commonerrors.Any":
 			if len(call.Args) == 0 || call.Ellipsis.IsValid() {
 				die(x.Pos(), "Any without arguments / with ...")
